@@ -67,6 +67,6 @@ Print Assumptions C16_service_loops_watch_done.
 Example C16_nonvacuous :
   exists s, run (init_cst false false false)
     [CT_OP; CT_ADD 0 0 0 5 None None false false true 0 false; HM_PUSH 0 true 0 false 0;
-     CL_CANCEL; BAR_EXIT 0 0 5 true; CT_DONE; HM_STATE 1 true 0; HM_END 1; CT_EXIT] = Some s
+     CL_CANCEL; BAR_EXIT 0 0 5 true; CT_DONE; HM_END 1; CT_EXIT] = Some s
   /\ ph s = Idle /\ out_pending s = false /\ ct_exited s = true /\ ended s = true /\ all_exited s = true.
 Proof. eexists. vm_compute. repeat split. Qed.
